@@ -5,6 +5,7 @@
   containment test; `catalog.xml` only as the last component of an existing directory).
 -/
 import PydapModel.Path
+import PydapModel.PathServer
 import Proofs.Path
 import Proofs.PathServe
 import Proofs.AppSrc
@@ -218,5 +219,55 @@ open MiniPy in
 example : runItem (routeEnv exFs ["r".toList] ["r".toList, "a.csv".toList]) Gen.src_dapserver_call "@ret"
     = .ok (.str (routeTag (.file []))) := by
   rfl
+
+/-! ### histories on one server object: routing is a function of (file system, request) alone -/
+
+/-- **no state**: whatever was requested before, and however the file system changed in between, the answer
+    of a long-lived `DapServer` to the i-th request is the answer a fresh server gives to that request on the
+    file system of that moment -/
+theorem C16_stateless (s : Srv) (h : List Event) :
+    runHistory s h = h.map fun e => serve s.exts e.1 s.root e.2 := by
+  induction h with
+  | nil => rfl
+  | cons e rest ih => simp [runHistory, Srv.call, ih]
+
+/-- the same request on the same file system gets the same answer wherever it occurs in a history
+    (the same path requested again after other paths; listing, file, listing) -/
+theorem C16_repeat_same_answer (s : Srv) (h : List Event) (i j : Nat) (e : Event)
+    (hi : h[i]? = some e) (hj : h[j]? = some e) :
+    (runHistory s h)[i]? = (runHistory s h)[j]? := by
+  rw [C16_stateless]
+  simp [List.getElem?_map, hi, hj]
+
+/-- **confinement over histories**: every access of every request of a history lies under the data directory,
+    provided the directory exists at each of those moments -/
+theorem C16_history_confined (s : Srv) (h : List Event) (hroot : Normal s.root)
+    (hexists : ∀ e ∈ h, e.1 s.root ≠ .missing) :
+    ∀ r ∈ runHistory s h, ∀ a ∈ r.1, s.root <+: a.path := by
+  rw [C16_stateless]
+  intro r hr a ha
+  obtain ⟨e, he, rfl⟩ := List.mem_map.mp hr
+  exact serve_confined s.exts e.1 s.root e.2 hroot (hexists e he) a ha
+
+/-- **what the statement excludes**: a handler lookup memoised by `splitext(path)[1].lower()` answers
+    `noext` (no extension, key `""`) differently after the hidden file `.csv` (key `""` as well: the whole name is
+    the "extension") has been looked up — its answers are not a function of the request -/
+theorem C16_memoised_lookup_depends_on_history :
+    let exts := ["csv".toList]
+    let r := "r".toList
+    (memoLookup exts [] [r, "noext".toList]).1 = false ∧
+    (memoLookup exts (memoLookup exts [] [r, ".csv".toList]).2 [r, "noext".toList]).1 = true := by
+  decide
+
+private def hFs1 : FS := fun p =>
+  if p = ["r".toList] then .dir ["t.csv".toList] else if p = ["r".toList, "t.csv".toList] then .file else .missing
+private def hFs2 : FS := fun p => if p = ["r".toList] then .dir [] else .missing
+
+/-- non-vacuity: listing, file, listing; then the file is removed and the same requests are repeated -/
+example : (runHistory ⟨["r".toList], ["csv".toList]⟩
+      [(hFs1, "/".toList), (hFs1, "/t.csv".toList), (hFs1, "/".toList), (hFs2, "/t.csv".toList), (hFs2, "/".toList)]).map (·.2) =
+    [.listing false ["r".toList] [("t.csv".toList, true)] [], .file ["r".toList, "t.csv".toList],
+     .listing false ["r".toList] [("t.csv".toList, true)] [], .notFound, .listing false ["r".toList] [] []] := by
+  decide
 
 end Pydap.C16
